@@ -17,6 +17,7 @@ rust2coq.py.  AST nodes are tuples whose 2nd component is always the source line
     ('struct', ln, path-node, [(field, expr)])     (shorthand `Self { key }` gives (key, path key))
     ('closure', ln, [param names], body)           ('macro', ln, name, [args])   (args parsed as exprs)
     ('return', ln, e|None)       ('for', ln, pattern, iter-expr, block)          ('tuple', ln, [es])
+    ('match', ln, scrutinee, [(pattern, arm-expr)])    ('range', ln, lo, hi)     ('break', ln)   ('continue', ln)
   patterns (only what `if let` / `for` / `let` need)
     ('pbind', ln, name, is_mut)  ('ptuplestruct', ln, path-node, [patterns])     ('pwild', ln)
   statements
@@ -294,7 +295,10 @@ class Parser:
         if self.at("|") or self.at("||") or (self.at("move") and (self.at("|", 1) or self.at("||", 1))):
             return self._closure(ns)
         if self.at("break") or self.at("continue"):
-            self.lost("`%s` is outside the subset" % x.text)
+            self.next()
+            if not (self.at(";") or self.at("}") or self.at(",")):
+                self.lost("`%s` with a label or value is outside the subset" % x.text)
+            return (x.text, x.line)
         lhs = self._range(ns)
         for op in ("=", "+=", "-=", "*="):
             if self.at(op):
@@ -312,18 +316,23 @@ class Parser:
             self.expect("|")
             while not self.at("|"):
                 p = self.pattern()
-                if p[0] != "pbind": self.lost("closure parameter pattern outside the subset", x)
+                if p[0] not in ("pbind", "pwild"): self.lost("closure parameter pattern outside the subset", x)
                 if self.accept(":"): self.parse_type()
-                params.append(p[2])
+                params.append(p[2] if p[0] == "pbind" else "_")
                 if not self.accept(","): break
             self.expect("|")
         if self.at("->"): self.lost("closure return type annotation is outside the subset")
         return ("closure", x.line, params, self.expr(ns))
 
     def _range(self, ns):
+        x = self.peek()
         e = self._binary(0, ns)
-        if self.at("..") or self.at("..=") or self.at("..."):
-            self.lost("range expressions are outside the subset")
+        if self.at(".."):
+            self.next()
+            if self.at("{") or self.at(")") or self.at(";") or self.at(","): self.lost("open-ended range")
+            return ("range", x.line, e, self._binary(0, ns))
+        if self.at("..=") or self.at("..."):
+            self.lost("inclusive range expressions are outside the subset")
         return e
 
     BINLEVELS = [["||"], ["&&"], ["==", "!=", "<", ">", "<=", ">="], ["|"], ["^"], ["&"], ["+", "-"], ["*", "/", "%"]]
@@ -450,7 +459,9 @@ class Parser:
             self.next(); p = self.pattern(); self.expect("in")
             it = self.expr(no_struct=True)
             return ("for", x.line, p, it, self.block())
-        for kw in ("match", "while", "loop", "async", "let"):
+        if self.at("match"):
+            return self._match()
+        for kw in ("while", "loop", "async", "let"):
             if self.at(kw): self.lost("`%s` expressions are outside the subset" % kw)
         if x.kind == "id" or (x.kind == "kw" and x.text in ("self", "Self", "crate", "super")):
             p = self._path_expr()
@@ -504,6 +515,23 @@ class Parser:
         then = self.block()
         return ("if", x.line, cond, then, self._else())
 
+    def _match(self):
+        x = self.expect("match")
+        scrut = self.expr(no_struct=True)
+        self.expect("{"); arms = []
+        while not self.at("}"):
+            if self.at("#"): self.lost("attributes on match arms are outside the subset")
+            pat = self.pattern()
+            if self.at("|") or self.at("if"): self.lost("or-patterns / match guards are outside the subset")
+            self.expect("=>")
+            blocklike = self.at("{")
+            body = self.expr()
+            arms.append((pat, body))
+            if not self.accept(","):
+                if not (blocklike or self.at("}")): self.lost("expected `,` after match arm")
+        self.expect("}")
+        return ("match", x.line, scrut, arms)
+
     def _else(self):
         if not self.accept("else"):
             return None
@@ -511,7 +539,7 @@ class Parser:
             return self._if()
         return self.block()
 
-    BLOCKLIKE = ("if", "iflet", "block", "for")
+    BLOCKLIKE = ("if", "iflet", "block", "for", "match")
 
     def block(self):
         x = self.expect("{"); stmts = []; tail = None
@@ -531,7 +559,7 @@ class Parser:
                 stmts.append(("let", y.line, pat, ty, init)); continue
             for kw in ("fn", "struct", "impl", "use", "const", "static", "mod", "enum", "trait", "type"):
                 if self.at(kw): self.lost("nested item `%s` inside a function body is outside the subset" % kw)
-            starts_blocklike = self.at("if") or self.at("{") or self.at("for") or (self.at("unsafe") and self.at("{", 1))
+            starts_blocklike = self.at("if") or self.at("{") or self.at("for") or self.at("match") or (self.at("unsafe") and self.at("{", 1))
             if starts_blocklike:
                 # like rustc: a block-like expression in statement position is complete at its closing brace
                 e = self._primary(False)
